@@ -120,7 +120,12 @@ func VerifC12File() {
 			f.Decs.Start = append(f.Decs.Start, vfDecoration4(p+"s"+string(rune('0'+i))))
 		}
 		f.Decs.Before = dst.SpaceType(vfInt(p+"before", 0, 2))
-		f.Decs.Name.Append(vfOpaque(p+"tail", "//"))
+		if p == "a" && vfChoice(p+"tailkind", 2) == 1 {
+			// the file may end in a block comment with nothing behind it
+			f.Decs.Name.Append(vfOpaque(p+"tail", "/*") + "*/")
+		} else {
+			f.Decs.Name.Append(vfOpaque(p+"tail", "//"))
+		}
 		if maxStart > 0 && vfChoice(p+"decl", 2) == 1 {
 			f.Decls = []dst.Decl{&dst.GenDecl{Tok: token.VAR, Specs: []dst.Spec{&dst.ValueSpec{Names: []*dst.Ident{{Name: "x"}}, Type: &dst.Ident{Name: "int"}}},
 				Decs: dst.GenDeclDecorations{NodeDecs: dst.NodeDecs{Before: dst.EmptyLine, End: dst.Decorations{vfOpaque(p+"end", "//")}}}}}
@@ -173,5 +178,11 @@ func VerifC12File() {
 		vfAssert(tf1.LineCount() == nLines, "first-file-line-table-unchanged")
 		vfAssert(fset.Position(a1.Package).Line == lineOfPkg, "first-file-line-table-unchanged")
 		vfAssert(fset.Position(a1.End()).Line == lineOfEnd, "first-file-line-table-unchanged")
+		// and its comments are still its own
+		prev := lo
+		for _, cg := range a1.Comments {
+			vfAssert(cg.Pos() >= prev && cg.End() <= hi, "first-file-comments-still-ordered-and-inside")
+			prev = cg.End()
+		}
 	}
 }
